@@ -254,6 +254,7 @@ inductive Msg where
   | fund (to d : Nat) (amt : Int)                -- coins minted outside the vault module (test funding)
   | seize (vaultId : Nat)                        -- liquidationsV2 hand-over to auction custody
   | settle (vaultId : Nat)                       -- the auction of a seized vault closes (auctionsV2 bid.go:188-190)
+  | settle1 (vaultId : Nat)                      -- first-generation auction closes (x/auction dutch.go CloseDutchAuction)
   deriving Repr
 
 def create (s : State) (p : Product) (e : Env) (from_ app prod : Nat) (amtIn amtOut : Int) : Option State :=
@@ -462,13 +463,27 @@ def settle (s : State) (p : Product) (vaultId : Nat) : Option State :=
                   coll := upd1 s.coll l.product (s.coll l.product - l.amountIn),
                   minted := upd1 s.minted l.product (s.minted l.product - l.debt) }
 
+/-- first-generation settlement (x/auction/keeper/dutch.go `CloseDutchAuction` 405-418 + `UpdateProtocolData` 665-679):
+the auction burns exactly the seized vault's PRINCIPAL (`lockedVault.AmountOut`; interest, closing fee and penalty go to
+the collector), and the product's totals are reduced by the seized collateral and by that same principal — so, unlike
+the second generation, every ledger equation stays exact. -/
+def settle1 (s : State) (p : Product) (vaultId : Nat) : Option State :=
+  match s.locked.find? (·.vaultId = vaultId) with
+  | none => none
+  | some l =>
+    if l.product ≠ p.id then none else
+    some { s with locked := s.locked.erase l,
+                  supply := upd1 s.supply p.denomOut (s.supply p.denomOut - l.amountOut),
+                  coll := upd1 s.coll l.product (s.coll l.product - l.amountIn),
+                  minted := upd1 s.minted l.product (s.minted l.product - l.amountOut) }
+
 /-- the product a message refers to (for `interestCalc` / `seize`: the product of the named vault) -/
 def Msg.product (s : State) : Msg → Option Nat
   | .create _ _ pr _ _ | .deposit _ _ pr _ _ | .withdraw _ _ pr _ _ | .draw _ _ pr _ _ | .repay _ _ pr _ _
   | .close _ _ pr _ | .depositAndDraw _ _ pr _ _ | .stableCreate _ _ pr _ | .stableDeposit _ _ pr _ _
   | .stableWithdraw _ _ pr _ _ => some pr
   | .interestCalc _ v | .seize v => (findVault s v).map (·.product)
-  | .settle v => (s.locked.find? (·.vaultId = v)).map (·.product)
+  | .settle v | .settle1 v => (s.locked.find? (·.vaultId = v)).map (·.product)
   | .donate .. | .fund .. => none
 
 def stepP (s : State) (p : Product) (e : Env) : Msg → Option State
@@ -487,6 +502,7 @@ def stepP (s : State) (p : Product) (e : Env) : Msg → Option State
   | .donate f d x => donate s f d x
   | .fund t d x => fund s t d x
   | .settle v => settle s p v
+  | .settle1 v => settle1 s p v
 
 /-- one message; `cfg` is the static product configuration (extended pair vaults). A message naming an unknown
 product is rejected (`ErrorExtendedPairVaultDoesNotExists`). -/
